@@ -31,6 +31,7 @@ FIXED = [
  ("C18", "a2babea", "after assigning a hybrid object to a non-reference field the nested dressed parts of the stored copy were still the source's (two-level nesting)", "corpus/C18/two_level_nested_assign.json"),
  ("C18", "c09fcf1", "setting a reference field (or a nested hybrid field holding references) from plain data or None left the previously assigned dressed object as the attribute value", "corpus/C18/ref_then_data.json"),
  ("C10", "71cc20e", "Struct._update byte-copied a same-class struct that holds references: the assigned element's references pointed to unrelated bytes", "corpus/C18/nested_with_ref_assign.json"),
+ ("C17", "173b5fc", "xobject arrays passed as pointer-to-scalar kernel arguments were cast to '<ArrayClassName>*' (cffi: undefined type name)", "corpus/C17/xobject_array_as_pointer.json"),
 ]
 _STALE = ("a whole-array update that moves the items of a root array of dynamically sized items, made through a view (_from_buffer) "
           "of that array, leaves the constructor handle's cached item offsets stale: reads through the old handle return other items' bytes "
